@@ -74,11 +74,11 @@ def run(ctx):
             elif c < 0.82:
                 base = r.choice([p for p in pool if p[0] == "T"])[1].split(":")
                 sig = r.choice(["*:64:0:*:mss*4,*:mss:df,id+:0", "*:128:0:*:8192,0:mss,nop,nop,sok:df,id+:0", "4:64:0:1460:mss*10,7:mss,sok,ts,nop,ws:df,id+:0", "bogus"])
-                steps.append(f"I:4:{base[1]}:sig:{hx(sig)}")
+                steps.append(f"I:4:{base[1]}:sig:{hx(sig)}:{r.choice([0, 1, 2])}")
             elif c < 0.9:
                 base = r.choice([p for p in pool if p[0] == "T"])[1].split(":")
                 how, lab = r.choice([("label", "s:unix:Linux:3.x"), ("label", "s:unix:W3:"), ("mtulabel", "Ethernet"), ("mtusig", "1492"), ("label", "nope")])
-                steps.append(f"I:4:{base[1]}:{how}:{hx(lab)}")
+                steps.append(f"I:4:{base[1]}:{how}:{hx(lab)}:{r.choice([0, 1, 3, 7])}")
             else:
                 steps.append("L:" + hx(r.choice(dbs)))
         line = "histq\t" + "\t".join(steps)
